@@ -37,7 +37,8 @@ def liftE {α : Type} : Except Graph.Err α → Except GhErr α
 /-! ### containers of an adjacency matrix
 
   `Model/Graph.lean` takes the matrix of entries; the code takes a CONTAINER of it.  The translation distinguishes what the
-  code distinguishes (`sps.issparse`, `isinstance(·, np.ndarray)`, the sparse format, which `.tocsr()` changes). -/
+  code distinguishes (`sps.issparse`, the sparse format, which `.tocsr()` changes; nested lists from an `ndarray`, which
+  `np.ascontiguousarray` maps to one `ndarray` of the same entries). -/
 
 /-- scipy's sparse formats -/
 inductive Fmt where
@@ -47,11 +48,12 @@ inductive Fmt where
 inductive Container where
   /-- nested lists / tuples: neither sparse nor an `ndarray` -/
   | nested (A : Mat)
-  /-- an `np.ndarray` (of any dtype; `np.matrix` is one) -/
+  /-- an `np.ndarray` (of any dtype and any memory layout: C- or Fortran-ordered, a transposed / strided view, the copy a
+      fancy index makes, read-only; `np.matrix` is one) -/
   | dense (A : Mat)
   /-- a scipy sparse matrix without explicitly stored zeros (the assumption of `Model/Graph.lean`) -/
   | sparse (f : Fmt) (A : Mat)
-  /-- anything else (what `np.asarray` makes of a sparse matrix: a 0-d object array); nothing is known about it -/
+  /-- anything else (what `np.ascontiguousarray` makes of a sparse matrix: an object array); nothing is known about it -/
   | other
   deriving DecidableEq, Repr
 
@@ -67,15 +69,14 @@ def issparse : Container → Bool
   | .sparse _ _ => true
   | _ => false
 
-/-- `isinstance(c, np.ndarray)` -/
-def isNdarray : Container → Bool
-  | .dense _ => true
-  | .other => true
-  | _ => false
-
-/-- `np.asarray(c)`: nested lists become an array of their entries (a ragged nesting is still rejected later, by
-    `shortest_path`: the contract puts that rejection there), an array is returned as it is -/
-def asarray : Container → Container
+/-- `np.ascontiguousarray(c)`: the SAME matrix of entries as a C-contiguous `ndarray`.  Nested lists become an array of their
+    entries (a ragged nesting is still rejected later, by `shortest_path`: the contract puts that rejection there); an array
+    keeps its entries whatever its memory layout was (transposed, Fortran-ordered, fancy-indexed, strided, read-only), whatever
+    its dtype.  MEMORY LAYOUT IS NOT MODELLED: `dense A` stands for every `ndarray` holding `A`, and the contract of the
+    csgraph routines below is for the C-contiguous one that this call returns.  ALIASING: the result may be the argument
+    itself (an array that already is C-contiguous); the translated subset has no statement that writes into a container.
+    Of a sparse matrix it makes a 1-d object array (`other`); the reviewed code calls it for what is not sparse only. -/
+def ascontiguousarray : Container → Container
   | .nested A => .dense A
   | .dense A => .dense A
   | .sparse _ _ => .other
@@ -87,9 +88,10 @@ def tocsr : Container → Except GhErr Container
   | .sparse _ A => .ok (.sparse .csr A)
   | _ => .error .attribute
 
-/-- what the csgraph routines are CALLED WITH by the reviewed code: a dense array or a CSR matrix.  The contract of
-    `shortest_path` / `connected_components` is stated for these only (before /repo commit f0487ca other sparse formats
-    reached csgraph and some of them were rejected). -/
+/-- what the csgraph routines are CALLED WITH by the reviewed code: a (C-contiguous) dense array or a CSR matrix.  The
+    contract of `shortest_path` / `connected_components` is stated for these only (before /repo commit f0487ca other sparse
+    formats reached csgraph and some of them were rejected; before fc69e2e a dense array reached it in the memory layout the
+    caller gave it, and scipy's Floyd-Warshall rejects one that is not C-contiguous). -/
 def Container.accepted : Container → Bool
   | .dense _ => true
   | .sparse .csr _ => true
